@@ -198,6 +198,18 @@ def main():
     ap.add_argument("--no-evidence", action="store_true")
     a = ap.parse_args()
     pid = a.prop
+    if pid == "ALL":
+        # developer mode: one shared analysis, report which properties fire
+        tier = a.tier if a.tier in ("quick", "thorough") else "quick"
+        res = get_results(a.repo, tier, a.force)
+        import subprocess
+        fired = {}
+        for q in sorted(registry.PROPS):
+            r = subprocess.run([sys.executable, os.path.abspath(__file__), q, "--tier", tier, "--repo", a.repo, "--no-evidence"], capture_output=True, text=True)
+            if r.returncode != 0:
+                fired[q] = [l.strip() for l in r.stdout.splitlines() if l.startswith("  rule=")][:5] or [r.stdout[-400:]]
+        print(json.dumps(fired))
+        sys.exit(1 if fired else 0)
     if pid not in registry.PROPS:
         print("unknown or unclaimed property", pid)
         sys.exit(2)
